@@ -159,3 +159,32 @@ for _p in ("C06", "C19"):
     CLAIMED[_p]["text"] += "; a byte slice stored as a string value is never nil (nil reads as another type)"
 CLAIMED["C06"]["technique"] += ", defined-on-every-path rule for the key fields of sort comparators (R-sort-keys-defined)"
 CLAIMED["C06"]["text"] += "; the fields a sort comparator reads are written on every path to the sort"
+
+# --- additions after the fourth refactoring round and the fifth batch of seeded changes (DESIGN.md §5.1e)
+CLAIMED["C01"]["technique"] += ", constant-format rule, parser-leaves-bytes-untouched rule (who-may-call over the wire parser's closure), dropped-reply rule, ends-only-on-read-error rule for the wait state"
+CLAIMED["C01"]["text"] += "; every fmt format is a constant; the wire parser applies no trimming/replacing function to request bytes; no computed reply is discarded; the wait state ends a connection only on the error side of the socket read"
+CLAIMED["C02"]["technique"] += ", base-10 rule for integer parsing"
+CLAIMED["C02"]["text"] += "; integers in client or stored text are parsed in base 10"
+CLAIMED["C04"]["technique"] += ", base-10 rule, key-comparison rule for dictionary primitives"
+CLAIMED["C04"]["text"] += "; every dictionary primitive that uses the bucket finder compares the found entry's key"
+CLAIMED["C05"]["technique"] += ", key-comparison rule for dictionary primitives, pattern-applied rule for scan functions"
+CLAIMED["C05"]["text"] += "; a function that is given a MATCH pattern keeps no walked entry without having passed the pattern on"
+CLAIMED["C06"]["technique"] += ", copy-carries-flags-and-deadline rule, wrong-type-reported rule on the nil side of typed accessors, pattern-applied rule"
+CLAIMED["C06"]["text"] += "; the copy of a key object takes flags and deadline from its source; the nil side of a typed accessor reports the wrong type on every path"
+CLAIMED["C07"]["technique"] += ", accept-only-live rule for iteration callbacks, copy-carries-deadline rule"
+CLAIMED["C07"]["text"] += "; an iteration callback accepts an entry only on the not-expired side of the expiry test"
+CLAIMED["C09"]["technique"] += ", one-reply-per-replayed-command must-pass rule, own-command-object rule (a new command object locks only a database proven different), watch-check-inside-the-replay-section rule"
+CLAIMED["C09"]["text"] += "; every path of the replay loop stores the command's reply; a handler locks through a new command object only for another database; the lock is held from the watch check to the replay"
+CLAIMED["C10"]["technique"] += ", name-and-aggregate agreement rule, bump-needs-change rule, parallel-index rule"
+CLAIMED["C10"]["text"] += "; the key name passed with an aggregate is the name it was obtained under; a version bump comes with a change; results are paired with the slice they were computed from"
+CLAIMED["C11"]["technique"] += ", register-all rule (whole list, no early exit), deferred-call-sees-current-value rule (syntactic)"
+CLAIMED["C11"]["text"] += "; a multi-key command registers on every key; a deferred leave acts on the current registration"
+CLAIMED["C12"]["technique"] += ", transient-state-left rule, dropped-reply rule, deferred-call-sees-current-value rule"
+CLAIMED["C12"]["text"] += "; a transient capture state is written again on every path; the reply of the blocking wrapper is used"
+CLAIMED["C13"]["technique"] += ", constant-format rule, own-command-object rule, HasPrefix-established lengths for argument-text parsers"
+CLAIMED["C14"]["technique"] += ", unnarrowed-index rule for SELECT (per platform word size), flush-on-every-path rule"
+CLAIMED["C14"]["text"] += "; the index SELECT validates is not narrowed first; a flush replaces the dictionary on every path"
+CLAIMED["C19"]["technique"] += ", error-examined rule in the snapshot replacement, saver-returns-only-through-the-cancel-arm rule, cancellation-blind final save rule"
+CLAIMED["C19"]["text"] += "; no error of the write/close/rename sequence is dropped; the saver goroutine ends only in the arm that makes the final save; the save path does not look at the cancellation of its lane"
+CLAIMED["C20"]["technique"] += ", API-acts-on-own-instance rule, no-plain-send rule for counted goroutines, saver rules"
+CLAIMED["C20"]["text"] += "; the termination API reaches no package-level registry; a counted goroutine has no plain channel send"
